@@ -1,6 +1,7 @@
 #!/bin/bash
-# usage: scratch_mut.sh file 'python-replace-old' 'new' [verify args]
+# usage: scratch_mut.sh file 'old' 'new' [verify args] -- applies a textual mutation, runs spokvc verify, restores the file
 f=$1; old=$2; new=$3; shift 3
+cp "$f" /tmp/scratch_mut.bak
 python3 - "$f" "$old" "$new" <<'PY'
 import sys
 f,old,new=sys.argv[1:4]
@@ -9,4 +10,5 @@ assert old in s, "pattern not found"
 open(f,'w').write(s.replace(old,new,1))
 PY
 cd /verif/spokvc && ../bin/spokvc verify "$@" 2>&1 | grep -v WARNING | cut -c1-220 | head -14
-cd /repo && git checkout -- "*.go" ":!*zz_contracts_verif.go" && git status --short
+cp /tmp/scratch_mut.bak "$f"
+cd /repo && git status --short
